@@ -614,12 +614,32 @@ class Server:
             "sock": self.sock, "pidfile": self.pidfile, "ids": self.ids, "errorlog": self.errorlog}
         # unset user/group = not configured at all
         lines = [l for l in txt.splitlines() if l not in ("user = None", "group = None")]
+        if c.get("via", "file") != "file":
+            # the identity comes from the command line / from GUNICORN_CMD_ARGS, not from the file (see identity_args)
+            lines = [l for l in lines if not l.startswith(("user = ", "group = ", "initgroups = "))]
         with open(os.path.join(self.dir, "conf.py"), "w") as fh:
             fh.write("\n".join(lines) + "\n")
+
+    def identity_args(self):
+        c = self.conf
+        out = []
+        if c.get("user") is not None:
+            out += ["--user", str(c["user"])]
+        if c.get("group") is not None:
+            out += ["--group", str(c["group"])]
+        if c.get("ig"):
+            out += ["--initgroups"]
+        return out
 
     def start(self):
         env = vlib.impl_env()
         env["PYTHONDONTWRITEBYTECODE"] = "1"
+        via = self.conf.get("via", "file")
+        extra = []
+        if via == "cli":
+            extra = self.identity_args()
+        elif via == "env":
+            env["GUNICORN_CMD_ARGS"] = " ".join(self.identity_args())
         mg = self.master_groups
 
         ft = self.fake_text
@@ -630,7 +650,7 @@ class Server:
                 enter_fake_group_db(ft)
             if mg is not None:
                 os.setgroups(mg)
-        self.proc = subprocess.Popen([sys.executable, os.path.join(self.dir, "c20run.py"), "-c", os.path.join(self.dir, "conf.py"), "c20app:app"],
+        self.proc = subprocess.Popen([sys.executable, os.path.join(self.dir, "c20run.py"), "-c", os.path.join(self.dir, "conf.py")] + extra + ["c20app:app"],
                                      cwd=self.dir, env=env, stdout=open(os.path.join(self.dir, "stdout.txt"), "wb"),
                                      stderr=open(os.path.join(self.dir, "stderr.txt"), "wb"), preexec_fn=pre)
         self.table = [self.proc.pid]
